@@ -2144,6 +2144,20 @@ pub fn check_c17(ix: &Ix<'_>, v: &mut Vec<Violation>) {
                     let Some((g, seen)) = gates.next() else {
                         if !ended {
                             viol(v, "C17", format!("C17/not-delivered/{role}"), format!("conn {conn}: PUBLISH (topic {:?}, alias {alias:?}) resolves to {topic:?} but no handler was invoked", p.topic), ix.last_seq);
+                        } else if alias.is_some()
+                            && (matches!(stop, Some((_, _, StopClass::Protocol(m))) if m.contains("lias"))
+                                || ix.eps.iter().any(|e| e.conn == conn && e.seq > s.seq && matches!(&e.pkt, Pkt::Disconnect(d) if d.code == 0x94)))
+                        {
+                            // every publish before this one was valid and handled: nothing but this publish can
+                            // have been taken for an alias violation
+                            viol(
+                                v,
+                                "C17",
+                                format!("C17/valid-alias-refused/{role}"),
+                                format!("conn {conn}: PUBLISH (topic {:?}, alias {alias:?}) resolves to {topic:?} by the bindings made on this connection, yet the connection was ended with a topic-alias error", p.topic),
+                                stop.map_or(ix.last_seq, |x| x.0),
+                            );
+                            return;
                         }
                         break;
                     };
